@@ -301,4 +301,25 @@ example :
       (fun e => (e.eval xOrder (.num 7) (.str [97]), e.eval xOrder (.num 7) .null))
     = some (true, false) := by decide
 
+/-! ### Obligations on the remaining regenerated facts the model relies on -/
+
+/-- The pruner compares with `compare(lhs, rhs, nullsMax = true) op 0` (the model's
+    `PExpr.cmp` and `KeyOrder` assume exactly this shape). -/
+theorem compare_shape :
+    Zed.Generated.C16.compareCall = "compare(lhs,rhs,·)" ∧
+    Zed.Generated.C16.compareNullsMax = "true" ∧
+    Zed.Generated.C16.compareAgainst = "0" := by decide
+
+/-- `literalComparison` recognises exactly `key op literal` (operator kept) and
+    `literal op key` (operator passed through `reverseComparator`), as `build` does. -/
+theorem literalComparison_shape :
+    Zed.Generated.C16.literalComparisonShape =
+      [("*dag.This", "*dag.Literal", "lhs,rhs,e.Op"),
+       ("*dag.Literal", "*dag.This", "rhs,lhs,reverseComparator(e.Op)")] := by decide
+
+/-- and/or combine the sub-pruners dually: `a and b` may be pruned when either side may
+    (`or`), `a or b` only when both may (`and`). -/
+theorem combiner_shape :
+    Zed.Generated.C16.andCombiner = "or" ∧ Zed.Generated.C16.orCombiner = "and" := by decide
+
 end Zed.Props.C16
